@@ -312,36 +312,26 @@ theorem rfindN_abs (hc : CfgOK c) {s : FStr} (hs : WF c s) {a : List Byte} (pos 
     · intro k hk1 hk2
       apply prefix_at_long (by omega); rw [hl, hla]; omega
 
-/-- the test of the `rfind( ch)` loop, also at the terminator (index `len`), for `ch ≠ 0` -/
-theorem rfindCh_test {s : FStr} (hs : WF c s) (ch : Byte) (hch : ch ≠ 0) {k : Nat} (hk : k ≤ s.len) :
+/-- the test of the `rfind( ch)` loop on an index inside the string (since the repair of the default position the
+    loop never starts on the terminator, so `ch = 0` needs no special case) -/
+theorem rfindCh_test {s : FStr} (hs : WF c s) (ch : Byte) {k : Nat} (hk : k < s.len) :
     bindR (get1 s.buf k) (fun x => Res.ok (decide (x = ch))) =
       .ok ([ch].isPrefixOf ((abs s).drop k)) := by
   have := hs.1; have := hs.2.1
   have hb : k < s.buf.length := by omega
   rw [get1_ok hb, bindR_ok]
   congr 1
-  by_cases hlt : k < s.len
-  · have hka : k < (abs s).length := by rw [abs_length hs]; exact hlt
-    rw [List.drop_eq_getElem_cons hka]
-    have : (abs s)[k] = s.buf[k] := by simp only [abs, List.getElem_take]
-    rw [this]
-    by_cases he : s.buf[k] = ch
-    · simp [List.isPrefixOf, he]
-    · have he' : ¬ ch = s.buf[k] := fun h => he h.symm
-      simp [List.isPrefixOf, he, he']
-  · have hk' : k = s.len := by omega
-    have h0 : s.buf[k] = 0 := by
-      have := hs.2.2
-      rw [← hk', List.getElem?_eq_getElem hb] at this
-      exact Option.some.inj this
-    have : (abs s).drop k = [] := by
-      apply List.drop_eq_nil_of_le; rw [abs_length hs]; omega
-    rw [this, h0]
-    simp [List.isPrefixOf]
-    exact fun h => hch h.symm
+  have hka : k < (abs s).length := by rw [abs_length hs]; exact hk
+  rw [List.drop_eq_getElem_cons hka]
+  have : (abs s)[k] = s.buf[k] := by simp only [abs, List.getElem_take]
+  rw [this]
+  by_cases he : s.buf[k] = ch
+  · simp [List.isPrefixOf, he]
+  · have he' : ¬ ch = s.buf[k] := fun h => he h.symm
+    simp [List.isPrefixOf, he, he']
 
-/-- (5) `rfind( ch, pos)` -/
-theorem rfindCh_abs (hc : CfgOK c) {s : FStr} (hs : WF c s) (ch : Byte) (hch : ch ≠ 0) {pos : Nat}
+/-- (5) `rfind( ch, pos)`, for every character (also `'\0'`) -/
+theorem rfindCh_abs (hc : CfgOK c) {s : FStr} (hs : WF c s) (ch : Byte) {pos : Nat}
     (hp : pos = npos c ∨ pos < s.len) :
     rfindCh c s ch pos = .ok (StdString.rfind (abs s) [ch] pos) := by
   have := hs.1; have := hs.2.1; have := hc.hW
@@ -360,12 +350,15 @@ theorem rfindCh_abs (hc : CfgOK c) {s : FStr} (hs : WF c s) (ch : Byte) (hch : c
       split <;> omega
     rw [if_neg (by intro h; rcases h with h | h; exact hadd h; exact h0 h)]
     simp only
-    have e : (if pos = npos c then s.len else pos) + 1 = min (pos + 1) (s.len + 1) := by
+    have e : (if pos = npos c then s.len - 1 else pos) + 1 = min (pos + 1) s.len := by
       unfold npos; unfold npos at hp; split <;> omega
-    rw [e]
-    apply rscanLoop_eq
-    intro idx hidx
-    exact rfindCh_test hs ch hch (by omega)
+    rw [e, lastBelow_shrink (m := min (pos + 1) s.len) (by omega) ?_]
+    · apply rscanLoop_eq
+      intro idx hidx
+      exact rfindCh_test hs ch (by omega)
+    · intro k hk1 hk2
+      apply prefix_at_long (by simp)
+      rw [hl]; simp only [List.length_singleton]; omega
 
 /-! ### `find_last_of( str, pos)` with `strchr` -/
 
